@@ -28,7 +28,8 @@
 import os, re, json, subprocess
 
 FUNCS = ['is_red', 'flip_color', 'rotate_left', 'rotate_right', 'move_red_left', 'move_red_right', 'fix',
-         'find_min', 'find_max', 'remove_min', 'put_obj', 'find_obj']
+         'find_min', 'find_max', 'remove_min', 'put_obj', 'find_obj',
+         'node_check_red', 'node_check_llrb']
 KEYED = ('put_obj', 'find_obj')           # translated inside a Section over kc : positive -> Z (the comparator's answer for the searched key at a node)
 PAYLOAD_FIELDS = ('name', 'data', 'namesize', 'datasize')
 PAYLOAD = ('name', 'data')      # fields of the node object that are not part of the heap model
